@@ -257,6 +257,10 @@ def Node.findReq {Tok : Type} (C : Crypto Tok) (n : Node) (who : Ident) (nid tar
   let vals := if force then [] else n.store.get target offset (some Gen.maxValuesInFind)
   (n.noteQuery nid, some (n.genToken C who, vals))
 
+/-- `on_ping_request`: answered unless the requester is blocked; counts as a query for the rate limit -/
+def Node.pingReq (n : Node) (nid : Nat) : Node × Bool :=
+  if n.blocked nid then (n, false) else (n.noteQuery nid, true)
+
 def lookupP : List (Nat × List Ident) → Nat → List Ident
   | [], _ => []
   | (k', l) :: r, k => if k' == k then l else lookupP r k
@@ -284,6 +288,7 @@ inductive Op (Tok : Type)
   | find (who : Ident) (nid target offset : Nat) (force : Bool)
   | store (r : StoreReq Tok)
   | storePeer (who : Ident) (token : Tok) (target : Nat)
+  | ping (nid : Nat)
 
 def Node.step {Tok : Type} [DecidableEq Tok] (C : Crypto Tok) (n : Node) : Op Tok → Node
   | .adv dt => n.adv dt
@@ -292,6 +297,7 @@ def Node.step {Tok : Type} [DecidableEq Tok] (C : Crypto Tok) (n : Node) : Op To
   | .find w nid t o f => (n.findReq C w nid t o f).1
   | .store r => (n.storeReq C r).1
   | .storePeer w tok t => (n.storePeerReq C w tok t).1
+  | .ping nid => (n.pingReq nid).1
 
 def Node.run {Tok : Type} [DecidableEq Tok] (C : Crypto Tok) (n : Node) (ops : List (Op Tok)) : Node :=
   ops.foldl (Node.step C) n
